@@ -1,1 +1,3 @@
 import Mrm.Props.C05
+import Mrm.Props.C07
+import Mrm.Props.C12
